@@ -191,6 +191,33 @@ def rules(report, index):
                  'sequence %r' % (seq,), 'encode_vlqs / decode_vlqs %r'
                  % (seq,), 'encode gives %r (expected %r), decode gives %r'
                  % (got, want, back), where='vlq.py')
+    # one call, several segments: what was encoded for an earlier segment
+    # must not influence a later one (tables, memoisation keyed by hashes:
+    # hash(-1) == hash(-2), hash(2**61 - 1) == hash(0) in CPython)
+    hpool = (0, 1, -1, -2, 2, 15, 16, -16, 2 ** 61 - 1, 2 ** 61,
+             -(2 ** 61 - 1), 2 ** 61 - 2)
+    bad_hist = []
+    for v in hpool:
+        for w in hpool:
+            maps_ = [[(4, 0, 0, v), (4, 0, 0, w)], [(v,), (w,)],
+                     [(4, 0, 0, v)]]
+            wantm = ';'.join(','.join(''.join(
+                reference_vlq(x) for x in seg) for seg in line)
+                for line in maps_)
+            got = call('encode_mappings', maps_)
+            back = call('decode_mappings', wantm)
+            if got != wantm or back != [list(x) for x in maps_]:
+                bad_hist.append((maps_, got, wantm, back))
+    r2.check(not bad_hist, 'segments of one call are encoded independently',
+             'encode_mappings / decode_mappings on every ordered pair of '
+             'segments over %d values in one call' % len(hpool),
+             '%d mappings differ; first: %r is encoded as %r (canonical: '
+             '%r), decoded back as %r' % (
+                 len(bad_hist), bad_hist[0][0] if bad_hist else None,
+                 bad_hist[0][1] if bad_hist else None,
+                 bad_hist[0][2] if bad_hist else None,
+                 bad_hist[0][3] if bad_hist else None),
+             where='vlq.py:encode_mappings / decode_mappings')
     maps = [[(0, 0, 0, 0), (4, 0, 0, 4, 1)], [], [(2,)]]
     want = 'AAAA,IAAIC;;E'
     got = call('encode_mappings', maps)
